@@ -15,7 +15,10 @@ from . import astx
 from .loader import Program, Func
 
 INT, FRAC, FIN, FLIB, BOOL, OTHER = "Int", "Frac", "FloatIn", "FloatLib", "Bool", "Other"
-NUMERIC = frozenset({INT, FRAC, FIN, FLIB})
+# the integer literal 0 (the start value of an accumulator) and the float it yields when divided by an int:
+# 0 / n is 0.0, which converts to an exact rational - unlike any other int / int
+ZERO, ZEROF = "Zero", "ZeroFloat"
+NUMERIC = frozenset({INT, FRAC, FIN, FLIB, ZERO, ZEROF})
 
 
 class K:
@@ -105,6 +108,17 @@ def arith(op: ast.operator, l: K, r: K) -> K:
 
 
 def _arith1(op, a: str, b: str) -> str:
+    if isinstance(op, (ast.Add, ast.Sub)):
+        if a == ZERO:
+            return b if b != ZEROF else ZEROF
+        if b == ZERO:
+            return a
+    if isinstance(op, ast.Div) and a == ZERO and b in (INT, ZERO):
+        return ZEROF
+    if isinstance(op, ast.Mult) and ZERO in (a, b) and INT in (a, b):
+        return ZERO
+    a = INT if a == ZERO else (FLIB if a == ZEROF else a)
+    b = INT if b == ZERO else (FLIB if b == ZEROF else b)
     if FLIB in (a, b):
         return FLIB
     if isinstance(op, ast.Div):
@@ -297,7 +311,7 @@ class NumKind:
             if isinstance(v, bool):
                 return K({BOOL})
             if isinstance(v, int):
-                return K({INT})
+                return K({ZERO}) if v == 0 else K({INT})
             if isinstance(v, float):
                 return K({FIN})
             return K({OTHER})
